@@ -35,6 +35,18 @@ func (p *prover) contractFacts(s *factSet, t term, seen map[term]bool) {
 			p.noteUse("contract io.Reader.Read: 0 <= n <= len(p) for the connection reader passed to newMultiLineReader")
 		}
 	}
+	// n, err := unix.Write(fd, p) / unix.Read(fd, p): -1 <= n <= len(p)  (read(2)/write(2))
+	if ex, ok := t.v.(*ssa.Extract); ok && ex.Index == 0 {
+		if rc, ok := ex.Tuple.(*ssa.Call); ok && rc.Common().StaticCallee() != nil {
+			switch extName(rc.Common().StaticCallee()) {
+			case "golang.org/x/sys/unix.Write", "golang.org/x/sys/unix.Read", "syscall.Write", "syscall.Read":
+				s.le(zeroT(), t, 1)
+				s.le(t, lenT(rc.Common().Args[1]), 0)
+				p.defs(s, lenT(rc.Common().Args[1]), seen, 1)
+				p.noteUse("OS contract read(2)/write(2): the byte count returned does not exceed the buffer length")
+			}
+		}
+	}
 	cl, ok := t.v.(*ssa.Call)
 	if !ok || !cl.Common().IsInvoke() {
 		return
@@ -216,6 +228,7 @@ func (p *prover) schemaFacts(s *factSet, t term) {
 //   len(F) = NF, len(F) = MF, len(F) >= 1, len(F) = len(G) for fields F, G stored by the same constructor.
 
 type fieldLenFacts struct {
+	eqConst    int64 // > 0: the length is this constant
 	eqNF, eqMF bool
 	eqField    map[string]bool // fields of the same struct with equal length
 }
@@ -262,6 +275,21 @@ func (p *prover) immutableLenFacts() map[string]*fieldLenFacts {
 		stores := byField[name]
 		ff := &fieldLenFacts{eqNF: true, eqMF: true, eqField: map[string]bool{}}
 		first := true
+		for _, k := range []int64{8, 16, 32, 64, 128, 256} {
+			all := true
+			for _, st := range stores {
+				lv := lenT(st.at.Val)
+				p.depth = 0
+				if !(p.prove(st.fn, st.at, lv, zeroT(), k, nil) && p.prove(st.fn, st.at, zeroT(), lv, -k, nil)) {
+					all = false
+					break
+				}
+			}
+			if all {
+				ff.eqConst = k
+				break
+			}
+		}
 		for _, st := range stores {
 			lv := lenT(st.at.Val)
 			p.depth = 0
@@ -322,8 +350,8 @@ func (p *prover) immutableLenFacts() map[string]*fieldLenFacts {
 	if os.Getenv("SLOGCHECK_F6INV") != "" {
 		for _, n := range names {
 			ff := p.fieldLens[n]
-			if ff.eqNF || ff.eqMF || len(ff.eqField) > 0 {
-				fmt.Printf("F6FIELD %s: eqNF=%v eqMF=%v eq=%v\n", n, ff.eqNF, ff.eqMF, ff.eqField)
+			if ff.eqNF || ff.eqMF || len(ff.eqField) > 0 || ff.eqConst > 0 {
+				fmt.Printf("F6FIELD %s: const=%d eqNF=%v eqMF=%v eq=%v\n", n, ff.eqConst, ff.eqNF, ff.eqMF, ff.eqField)
 			}
 		}
 	}
@@ -368,6 +396,9 @@ func (p *prover) fieldLoadFacts(s *factSet, fn *ssa.Function, seen map[term]bool
 			continue
 		}
 		ff := fl[l.field]
+		if ff.eqConst > 0 {
+			s.eq(lt, zeroT(), ff.eqConst)
+		}
 		if ff.eqNF {
 			s.eq(lt, nfT(), 0)
 			p.schemaBase(s)
@@ -394,26 +425,31 @@ type fieldLoad struct {
 // length of a slice/string result of a module function: len(ret) = len(param_i), = NF or = MF
 
 type lenRetFact struct {
-	kind int // 0: len(param idx), 1: NF, 2: MF
+	kind int // 0: = len(param idx), 1: = NF, 2: = MF, 3: <= len(param idx), 4: = constant idx
 	idx  int
 }
 
 func (p *prover) lenRetSummary(callee *ssa.Function, ridx int) []lenRetFact {
 	k := retKey{callee, ridx}
-	if e, ok := p.lenRetCache[k]; ok {
-		return e
+	if e, ok := p.lenRetCache[k]; ok && (!e.tainted || e.gen == p.gen) {
+		if e.tainted {
+			p.taint = true
+		}
+		return e.facts
 	}
-	if p.nest >= 6 || p.retBusy[k] {
+	if p.nest >= 6 || p.lenRetBusy[k] {
 		p.taint = true
-		return nil
+		return p.lenRetCache[k].facts
 	}
 	rets := returnedValues(callee, ridx)
 	if len(rets) == 0 || len(rets) > 8 {
-		p.lenRetCache[k] = nil
+		p.lenRetCache[k] = lenRetEntry{}
 		return nil
 	}
-	p.retBusy[k] = true
-	defer delete(p.retBusy, k)
+	p.lenRetBusy[k] = true
+	defer delete(p.lenRetBusy, k)
+	savedTaint := p.taint
+	p.taint = false
 	var cands []lenRetFact
 	for i, prm := range callee.Params {
 		if isSeqType(prm.Type()) {
@@ -421,20 +457,35 @@ func (p *prover) lenRetSummary(callee *ssa.Function, ridx int) []lenRetFact {
 		}
 	}
 	cands = append(cands, lenRetFact{1, 0}, lenRetFact{2, 0})
+	for i, prm := range callee.Params {
+		if isSeqType(prm.Type()) {
+			cands = append(cands, lenRetFact{3, i})
+		}
+	}
+	for _, k := range []int{8, 16, 32, 64, 128, 256} {
+		cands = append(cands, lenRetFact{4, k})
+	}
 	var out []lenRetFact
+	haveEq := map[int]bool{}
 	savedDepth := p.depth
 	p.depth = 0
 	p.nest++
 	defer func() { p.depth = savedDepth; p.nest-- }()
 	for _, cd := range cands {
 		var other term
+		var off int64
 		switch cd.kind {
-		case 0:
+		case 0, 3:
 			other = term{v: callee.Params[cd.idx], isLn: true}
 		case 1:
 			other = nfT()
 		case 2:
 			other = mfT()
+		case 4:
+			other, off = zeroT(), int64(cd.idx)
+		}
+		if cd.kind == 3 && haveEq[cd.idx] {
+			continue
 		}
 		ok := true
 		for _, rv := range rets {
@@ -443,17 +494,34 @@ func (p *prover) lenRetSummary(callee *ssa.Function, ridx int) []lenRetFact {
 				break
 			}
 			lt := lenT(rv.Val)
-			if !(p.prove(callee, rv.At, lt, other, 0, nil) && p.prove(callee, rv.At, other, lt, 0, nil)) {
+			if !p.prove(callee, rv.At, lt, other, off, nil) {
+				ok = false
+				break
+			}
+			if cd.kind != 3 && !p.prove(callee, rv.At, other, lt, -off, nil) {
 				ok = false
 				break
 			}
 		}
 		if ok {
 			out = append(out, cd)
+			if cd.kind == 0 {
+				haveEq[cd.idx] = true
+			}
 		}
 	}
-	p.lenRetCache[k] = out
+	if old, ok := p.lenRetCache[k]; !ok || len(old.facts) != len(out) {
+		p.grew = true
+	}
+	p.lenRetCache[k] = lenRetEntry{out, p.taint, p.gen}
+	p.taint = p.taint || savedTaint
 	return out
+}
+
+type lenRetEntry struct {
+	facts   []lenRetFact
+	tainted bool
+	gen     int
 }
 
 func (p *prover) lenSummaryFacts(s *factSet, t term, seen map[term]bool) {
@@ -494,6 +562,14 @@ func (p *prover) lenSummaryFacts(s *factSet, t term, seen map[term]bool) {
 		case 2:
 			s.eq(t, mfT(), 0)
 			p.schemaBase(s)
+		case 3:
+			if f.idx < len(cl.Common().Args) {
+				o := lenT(cl.Common().Args[f.idx])
+				s.le(t, o, 0)
+				p.defs(s, o, seen, 1)
+			}
+		case 4:
+			s.eq(t, zeroT(), int64(f.idx))
 		}
 	}
 }
